@@ -68,6 +68,18 @@ def Pc.promise : Pc → Option TaskId
   | .dRun c | .dIn c _ => c.task
   | _ => none
 
+/-- about to perform the shared acquisition (the drain attempt is over or was skipped) -/
+def Pc.atAcq : Pc → Bool
+  | .sAcq _ => true
+  | _ => false
+
+/-- phase of a drain: 1 = holds `m`, flag not yet cleared; 2 = cleared, queue not yet swapped; 3 = batch loop -/
+def Pc.drPhase : Pc → Nat
+  | .dLoad _ | .dClear _ => 1
+  | .dQLock _ | .dSwap _ => 2
+  | .dRun _ | .dIn _ _ => 3
+  | _ => 0
+
 structure SameClass (p p' : Pc) : Prop where
   hX : p'.holdsX = p.holdsX
   hS : p'.holdsS = p.holdsS
@@ -79,6 +91,8 @@ structure SameClass (p p' : Pc) : Prop where
   runs : p'.runs = p.runs
   running : p'.running = p.running
   promise : p'.promise = p.promise
+  atAcq : p'.atAcq = true → p.atAcq = true
+  drPhase : p'.drPhase = p.drPhase
 
 theorem Pc.prePub_task {p : Pc} {k : TaskId} (h : p.prePub = some k) : p.task = some k := by
   cases p <;> simp_all [Pc.prePub, Pc.task]
@@ -108,6 +122,10 @@ inductive Step (s : St) (t : Tid) : St → Prop
   | wr (v : Int) (hr : (s.pc t).holdsX = true) : Step s t { s with val := v }
   | move (p p' : Pc) (hp : s.pc t = p) (hc : SameClass p p') : Step s t (s.setPc t p')
   | skipDrain (c : Ctx) (hp : s.pc t = .dLoad c) (hf : s.flag = false) : Step s t (s.setPc t (.dRun c))
+  | skipShared (c : SCtx) (hp : s.pc t = .sFlag c) (hf : s.flag = false) : Step s t (s.setPc t (.sAcq c))
+  | failTry (p p' : Pc) (hp : s.pc t = p)
+      (hpp : (∃ k a, p = .mTry k a ∧ p' = .qLock k a) ∨ (∃ c, p = .sTry c ∧ p' = .sAcq c))
+      (hfail : s.spur = true ∨ s.mx ≠ none ∨ s.sh ≠ []) : Step s t (s.setPc t p')
   | call (k : TaskId) (a : Bool) (hp : s.pc t = .idle false) (hsub : s.sub k = none) :
       Step s t ({ s with sub := upd s.sub k (some t), before := upd s.before k s.done }.setPc t (.mTry k a))
   | lockX (p p' : Pc) (hp : s.pc t = p)
@@ -146,9 +164,16 @@ inductive Step (s : St) (t : Tid) : St → Prop
 theorem tryX_true {s : St} (h : s.tryX true = true) : s.mx = none ∧ s.sh = [] := by
   simpa [St.tryX] using h
 
+theorem tryX_false {s : St} (h : s.tryX false = true) : s.spur = true ∨ s.mx ≠ none ∨ s.sh ≠ [] := by
+  simp only [St.tryX, Bool.false_eq_true, if_false, Bool.or_eq_true, decide_eq_true_eq] at h
+  rcases h with (h | h) | h
+  · exact Or.inl h
+  · exact Or.inr (Or.inl h)
+  · exact Or.inr (Or.inr h)
+
 macro "same_class" : tactic =>
   `(tactic| (constructor <;> simp [Pc.holdsX, Pc.holdsS, Pc.holdsQ, Pc.task, Pc.prePub, Pc.between, Pc.atFlag, Pc.runs,
-      Pc.running, Pc.promise, Ctx.task]))
+      Pc.running, Pc.promise, Pc.atAcq, Pc.drPhase, Ctx.task]))
 
 theorem step_sound {s s' : St} {t : Tid} {e : Ev} (hs : step s t e = some s') : Step s t s' := by
   unfold step at hs
@@ -178,7 +203,10 @@ theorem step_sound {s s' : St} {t : Tid} {e : Ev} (hs : step s t e = some s') : 
     · rename_i hg; split at hs
       · rename_i hok; subst hok; injection hs with hs; subst hs
         exact .lockX _ _ hp (Or.inl ⟨k, a, rfl, rfl⟩) (tryX_true hg).1 (tryX_true hg).2
-      · injection hs with hs; subst hs; exact .move _ _ hp (by same_class)
+      · rename_i hok
+        have hok' : ok = false := by cases ok <;> simp_all
+        subst hok'
+        injection hs with hs; subst hs; exact .failTry _ _ hp (Or.inl ⟨k, a, rfl, rfl⟩) (tryX_false hg)
     · contradiction
   · rename_i k a hp; split at hs
     · rename_i hq; injection hs with hs; subst hs; exact .lockQ _ _ hp (Or.inl ⟨k, a, rfl, rfl⟩) hq
@@ -197,9 +225,9 @@ theorem step_sound {s s' : St} {t : Tid} {e : Ev} (hs : step s t e = some s') : 
     · contradiction
   · -- sFlag, fld
     rename_i c v hp; split at hs
-    · injection hs with hs; subst hs
+    · rename_i hv; injection hs with hs; subst hs
       cases v
-      · exact .move _ _ hp (by same_class)
+      · exact .skipShared c hp hv.symm
       · exact .move _ _ hp (by same_class)
     · contradiction
   · -- sTry, mtl
@@ -207,7 +235,10 @@ theorem step_sound {s s' : St} {t : Tid} {e : Ev} (hs : step s t e = some s') : 
     · rename_i hg; split at hs
       · rename_i hok; subst hok; injection hs with hs; subst hs
         exact .lockX _ _ hp (Or.inr ⟨c, rfl, rfl⟩) (tryX_true hg).1 (tryX_true hg).2
-      · injection hs with hs; subst hs; exact .move _ _ hp (by same_class)
+      · rename_i hok
+        have hok' : ok = false := by cases ok <;> simp_all
+        subst hok'
+        injection hs with hs; subst hs; exact .failTry _ _ hp (Or.inr ⟨c, rfl, rfl⟩) (tryX_false hg)
     · contradiction
   · -- dLoad, fld
     rename_i c v hp; split at hs
@@ -483,7 +514,7 @@ theorem invL_unlockQ {s s' : St} {t : Tid} {p' : Pc} (h : InvL s) (hpc : s'.pc =
 
 macro "cls" : tactic =>
   `(tactic| simp_all [Pc.holdsX, Pc.holdsS, Pc.holdsQ, Pc.task, Pc.prePub, Pc.between, Pc.atFlag, Pc.runs,
-      Pc.running, Pc.promise, Ctx.task])
+      Pc.running, Pc.promise, Pc.atAcq, Pc.drPhase, Ctx.task])
 
 theorem invL_step {s s' : St} {t : Tid} (h : InvL s) (hs : Step s t s') : InvL s' := by
   cases hs with
@@ -492,6 +523,11 @@ theorem invL_step {s s' : St} {t : Tid} (h : InvL s) (hs : Step s t s') : InvL s
   | move p p' hp hc =>
     subst hp; exact invL_move h rfl hc.hX hc.hS hc.hQ rfl rfl rfl
   | skipDrain c hp hf => exact invL_move h rfl (by cls) (by cls) (by cls) rfl rfl rfl
+  | skipShared c hp hf => exact invL_move h rfl (by cls) (by cls) (by cls) rfl rfl rfl
+  | failTry p p' hp hpp hfail =>
+    subst hp
+    rcases hpp with ⟨k, a, h1, h2⟩ | ⟨c, h1, h2⟩ <;> subst h2 <;>
+      exact invL_move h rfl (by cls) (by cls) (by cls) rfl rfl rfl
   | call k a hp hsub => exact invL_move h rfl (by cls) (by cls) (by cls) rfl rfl rfl
   | lockX p p' hp hpp hm hs =>
     subst hp
